@@ -12,7 +12,7 @@ from rv.verdict import h
 PROPERTY = "C12"
 LEVEL = "exploration"
 RULE = ("configurations: 2-3 sender tasks x 1-3 messages, small packets or packets above the 64000-byte I/O chunk (three writes "
-        "each), with/without a re-entrant send from inside the first transport write. schedules: (i) systematic - a census run "
+        "each), with/without re-entrant sends (1, 40 or 150 of them) from inside the first transport write. schedules: (i) systematic - a census run "
         "lists every yield point (source line of _send, lock operation, transport write); every placement of ONE delay and "
         "(2 tasks) of TWO delays is run; (ii) seeded random and PCT-style schedules. distinct = hash of the (task, yield point) "
         "switch trace; non-trivial = at least one pre-emption taken inside _send")
@@ -47,10 +47,13 @@ def one_run(cfg, seed, policy, script=(), census=False, p_switch=0.3):
     fired = []
 
     def on_write(side, data):
+        # reentrant = how many sends are started from inside the first transport write (one proxy finalizer, or a collector pass
+        # that frees dozens of proxies at once)
         if reentrant and not fired and side == "A":
             fired.append(1)
-            sent.append(("re", 0))
-            conn._send(consts.MSG_REQUEST, 900, ("re", 0, b"r"))
+            for k in range(int(reentrant)):
+                sent.append(("re", k))
+                conn._send(consts.MSG_REQUEST, 900 + k, ("re", k, b"r"))
     net.on_write = on_write
 
     def sender(t):
@@ -95,7 +98,7 @@ def one_run(cfg, seed, policy, script=(), census=False, p_switch=0.3):
                 bad.append(("message-lost", "messages %r were never transmitted" % (missing[:3],)))
             if dup:
                 bad.append(("message-duplicated", "messages %r were transmitted twice" % (dup[:3],)))
-        for t in range(ntasks):
+        for t in list(range(ntasks)) + ["re"]:
             mine = [i for (tt, i) in got if tt == t]
             if mine != sorted(mine):
                 bad.append(("order", "messages of one thread left out of order: %r" % (mine,)))
@@ -117,6 +120,9 @@ def configs(rng, quick):
             for reentrant in (False, True):
                 for nm in ((1, 1, 1), (2, 1, 1), (1, 3, 2), (3, 3, 1)):
                     out.append((ntasks, nm[:ntasks], big, reentrant))
+            # bursts of re-entrant sends: far more packets queued behind one write than any handful of threads produces
+            out.append((ntasks, (2, 1, 1)[:ntasks], big, 40))
+        out.append((ntasks, (1, 2, 1)[:ntasks], False, 150))
     return out
 
 
@@ -146,6 +152,10 @@ def run(ctx):
             record(ctx, cen)
             points = [(name, nth) for (name, nth, tag) in cen["census"]]
             ctx.maximum("census_yield_points", len(points))
+            if cfg[3] not in (False, True):
+                # burst configurations have thousands of yield points that differ only by the position in the burst: an evenly
+                # spaced sample of them in the systematic part (the random schedules below cover the rest)
+                points = points[::max(1, len(points) // (25 if ctx.quick else 200))]
             for (name, nth) in points:
                 for d in ((2, 60) if ctx.quick else (1, 2, 5, 60)):
                     record(ctx, one_run(cfg, 0, "scripted", script=[(name, nth, d)]))
